@@ -32,6 +32,9 @@ def cases(tier, seed):
                     if N >= 2 and mo == "single" and mom in ("sym", 0.5):
                         # the same history split over two successive Calibration contexts must give the same averages
                         out.append(dict(kind="ema", act=a, model=mo, momentum=mom, N=N, split=1))
+                        if mom == 0.5:
+                            # ... also when the very same Calibration object is used for both contexts
+                            out.append(dict(kind="ema", act=a, model=mo, momentum=mom, N=N, split=1, reuse=True))
     if tier == "quick":
         # a quantized LayerNorm fed a float input (its qforward does not quantize the input itself)
         out.append(dict(kind="ema", act="qint8", model="lnorm", momentum=0.5, N=1))
@@ -66,7 +69,7 @@ def qmods(model):
     return [(n, mod) for n, mod in model.named_modules() if isinstance(mod, QModuleMixin) and mod.activation_qtype is not None]
 
 
-def reference(model_kind, act_name, batches, momentum, split=None):
+def reference(model_kind, act_name, batches, momentum, split=None, reuse=False):
     """plain-quanto run + float64 reference recurrence; returns list of (name, which, got, expected, history)"""
     from optimum.quanto import Calibration
     from optimum.quanto.tensor import QBytesTensor
@@ -84,13 +87,14 @@ def reference(model_kind, act_name, batches, momentum, split=None):
     stack = contextlib.ExitStack()
     stack.enter_context(torch.no_grad())
     ctxs = contextlib.ExitStack()
-    ctxs.enter_context(Calibration(momentum=momentum, streamline=(model_kind == "chain-streamline")))
+    cal0 = Calibration(momentum=momentum, streamline=(model_kind == "chain-streamline"))
+    ctxs.enter_context(cal0)
     with stack:
         for bi, x in enumerate(batches):
             if split is not None and bi == split:
                 ctxs.close()
                 ctxs = contextlib.ExitStack()
-                ctxs.enter_context(Calibration(momentum=momentum, streamline=(model_kind == "chain-streamline")))
+                ctxs.enter_context(cal0 if reuse else Calibration(momentum=momentum, streamline=(model_kind == "chain-streamline")))
             model(x)
             for n_, mod_ in mods:
                 actual[(n_, "in")].append(float(mod_.input_scale))
@@ -166,11 +170,12 @@ def run_case(case, res):
             import contextlib
 
             with torch.no_grad(), contextlib.ExitStack() as ctxs:
-                ctxs.enter_context(Calibration(momentum=mom, streamline=(kind == "chain-streamline")))
+                cal0 = Calibration(momentum=mom, streamline=(kind == "chain-streamline"))
+                ctxs.enter_context(cal0)
                 for t, x in enumerate(xs):
                     if case.get("split") is not None and t == case["split"]:
-                        ctxs.close()  # leave the first calibration context, enter a second one
-                        ctxs.enter_context(Calibration(momentum=mom, streamline=(kind == "chain-streamline")))
+                        ctxs.close()  # leave the first calibration context, enter a second one (a new object, or the same one again)
+                        ctxs.enter_context(cal0 if case.get("reuse") else Calibration(momentum=mom, streamline=(kind == "chain-streamline")))
                     model(x)
                     cur = x
                     for n, mod in model.named_children():
@@ -190,7 +195,7 @@ def run_case(case, res):
         return m, info
 
     def enc(xs, momv):
-        return dict(batches=[api.enc_tensor(x) for x in xs], momentum=float(momv), model=kind, act=case["act"], split=case.get("split"))
+        return dict(batches=[api.enc_tensor(x) for x in xs], momentum=float(momv), model=kind, act=case["act"], split=case.get("split"), reuse=bool(case.get("reuse")))
 
     xs, mom_t = seeds0()
     queue = [(xs, mom_t)]
@@ -308,8 +313,8 @@ def replay(rec):
     inp = rec["inputs"]
     batches = [api.dec_tensor(b) for b in inp["batches"]]
     mom = inp["momentum"]
-    rows = reference(inp["model"], inp["act"], batches, mom, inp.get("split"))
-    rows09 = reference(inp["model"], inp["act"], batches, 0.9, inp.get("split")) if mom != 0.9 else rows
+    rows = reference(inp["model"], inp["act"], batches, mom, inp.get("split"), bool(inp.get("reuse")))
+    rows09 = reference(inp["model"], inp["act"], batches, 0.9, inp.get("split"), bool(inp.get("reuse"))) if mom != 0.9 else rows
     bad, keys = [], set()
     for (n, w, got, exp, hist, act_, amx), (_, _, got9, exp9, _, _, _) in zip(rows, rows09):
         if exp is None:
